@@ -29,6 +29,7 @@ func genC19(c *Ctx) {
 			c.Case(fmt.Sprintf("kmac-computehash/g=%d", g), fmt.Sprintf("expect ok #kmac %d %d", g, r), mixKmac(c, g))
 			c.Case(fmt.Sprintf("bls-mix/g=%d", g), fmt.Sprintf("expect ok #bls %d %d", g, r), mixBLS(c, g))
 			c.Case(fmt.Sprintf("ecdsa-mix/g=%d", g), fmt.Sprintf("expect ok #ecdsa %d %d", g, r), mixECDSA(c, g))
+			c.Case(fmt.Sprintf("bls-first-use/g=%d", g), fmt.Sprintf("expect ok #blsfresh %d %d", g, r), mixBLSFirstUse(c, g))
 		}
 	}
 }
@@ -161,6 +162,91 @@ func mixBLS(c *Ctx, g int) string {
 		return "argument-modified"
 	}
 	if !bytes.Equal(sks[0].Encode(), snapSk) || !bytes.Equal(msg, snapMsg) || !bytes.Equal(agg, snapAgg) || !bytes.Equal(h.ComputeHash(msg), wantHash) {
+		return "argument-modified"
+	}
+	return "ok"
+}
+
+// mixBLSFirstUse: the very FIRST use of freshly built key objects is concurrent (anything a key computes lazily and
+// keeps - an encoding, a flag, a normalised form - is then computed by several goroutines at once). The expected
+// results come from twin objects built the same way and used alone; keys of every provenance, including keys in
+// non-affine coordinates (results of removal), for which serialization is slow.
+func mixBLSFirstUse(c *Ctx, g int) string {
+	h := crypto.NewExpandMsgXOFKMAC128("first")
+	msg := c.bytes(33)
+	k1, k2 := c.randScalar(), c.randScalar()
+	build := func() (keys []crypto.PublicKey, sk crypto.PrivateKey) {
+		sk1, sk2 := skFromInt(k1), skFromInt(k2)
+		p1, _ := sk1.PublicKey(), sk2.PublicKey()
+		dec, _ := crypto.DecodePublicKey(crypto.BLSBLS12381, p1.Encode())
+		q1, q2 := skFromInt(k1).PublicKey(), skFromInt(k2).PublicKey()
+		agg, _ := crypto.AggregateBLSPublicKeys([]crypto.PublicKey{q1, q2})
+		rem, _ := crypto.RemoveBLSPublicKeys(agg, []crypto.PublicKey{q2}) // = pk1, not normalised
+		return []crypto.PublicKey{skFromInt(k1).PublicKey(), dec, rem}, skFromInt(k1)
+	}
+	refSk := skFromInt(k1)
+	sig, _ := refSk.Sign(msg, h)
+	pop, _ := crypto.BLSGeneratePOP(refSk)
+	snapSig, snapPop := append([]byte{}, sig...), append([]byte{}, pop...)
+	opsOf := func(keys []crypto.PublicKey, sk crypto.PrivateKey) []func() string {
+		var ops []func() string
+		for _, pk := range keys {
+			pk := pk
+			ops = append(ops,
+				func() string { ok, err := crypto.BLSVerifyPOP(pk, pop); return fmt.Sprint(ok, errClass(err)) },
+				func() string { return hx(pk.Encode()) },
+				func() string { ok, err := pk.Verify(sig, msg, h); return fmt.Sprint(ok, errClass(err)) },
+				func() string { return pk.String() },
+				func() string { return fmt.Sprint(pk.Equals(keys[0]), crypto.IsBLSAggregateEmptyListError(nil)) },
+				func() string {
+					ok, err := crypto.VerifyBLSSignatureOneMessage([]crypto.PublicKey{pk}, sig, msg, h)
+					return fmt.Sprint(ok, errClass(err))
+				},
+			)
+		}
+		ops = append(ops,
+			func() string { return hx(sk.PublicKey().Encode()) },
+			func() string { s, err := sk.Sign(msg, h); return hx(s) + errClass(err) },
+			func() string { p, err := crypto.BLSGeneratePOP(sk); return hx(p) + errClass(err) },
+		)
+		return ops
+	}
+	twinKeys, twinSk := build()
+	twin := opsOf(twinKeys, twinSk)
+	want := make([]string, len(twin))
+	for i, op := range twin {
+		want[i] = op()
+	}
+	freshKeys, freshSk := build()
+	ops := opsOf(freshKeys, freshSk)
+	results := make([]string, g)
+	start := make(chan struct{})
+	var wg sync.WaitGroup
+	for i := 0; i < g; i++ {
+		wg.Add(1)
+		go func(i int) {
+			defer wg.Done()
+			<-start
+			for rep := 0; rep < len(ops); rep++ {
+				// all goroutines start on the same operation (first use of the same object), then spread
+				k := rep
+				if rep > 0 {
+					k = (i*7 + rep) % len(ops)
+				}
+				if got := ops[k](); got != want[k] {
+					results[i] = fmt.Sprintf("result-changed op %d: got %s want %s", k, got, want[k])
+				}
+			}
+		}(i)
+	}
+	close(start)
+	wg.Wait()
+	for _, r := range results {
+		if r != "" {
+			return r
+		}
+	}
+	if !bytes.Equal(sig, snapSig) || !bytes.Equal(pop, snapPop) {
 		return "argument-modified"
 	}
 	return "ok"
